@@ -72,8 +72,8 @@ class C20(Prop):
     level = "exploration"
     title = "The result-cache index returns exactly the stored entries matching a lookup"
     campaigns = {
-        "quick": [("plain", 60000, 40), ("siblings", 60000, 40)],
-        "thorough": [("plain", 1500000, 300), ("siblings", 1500000, 300)],
+        "quick": [("plain", 400000, 40), ("known:siblings", 4000, 30)],
+        "thorough": [("plain", 6000000, 600), ("known:siblings", 40000, 300)],
     }
     chunk = 2000
     vacuity = {"quick": ["probe:wildcard_level_traversed", "probe:overwrite", "probe:retrieve_multi",
@@ -99,7 +99,7 @@ class C20(Prop):
         keys = rng.sample(range(1, 9), nk)
         nv = rng.choice([2, 2, 3])
         n_ops = rng.randint(2, 10 if tier == "quick" else 14)
-        siblings = campaign == "siblings"
+        siblings = campaign == "known:siblings"
         ops = []
         stored = []
 
